@@ -36,13 +36,18 @@ META = {
             "retain_lines generator and a separate output directory; inject_global_value -> compute_expression -> "
             "remove_unused_if_branch with the dense generator in place). Expected matches come from the glob model "
             "(Model/FiltersGlob.v, evaluated in Coq) and from an independent python reading of the glob syntax, both compared with "
-            "darklua's engine on every pattern x path. A case is non-trivial when the filters under test select some but not "
+            "darklua's engine on every pattern x path. Configuration location stream: the tree moved under `project/`, 27 patterns with "
+            "and without the `project/` prefix, each as apply and as skip at the top level, on a rule and on both, x configuration "
+            "given in memory / `.darklua.json` of the working directory / with_configuration_at `project/.darklua.json5` / "
+            "`project/src/.darklua.json` / `conf/darklua.json` x input `project` / `project/src`. A case is non-trivial when the filters under test select some but not "
             "all files; distinct by configuration text",
     "assumptions": ["glob matching (wax) is an oracle in the filter theorems (they hold for every `matches`); the check instantiates "
                     "it with Model/FiltersGlob.v, which models: `/`-separated components, `**` as a whole component (zero or more "
                     "components; first, middle, last, alone), literal characters, `?`, `*`, `[..]` with ranges and `[!..]`, "
                     "`{..,..}` without `/` or nesting; not modelled: alternatives containing `/`, repetitions, flags, escapes",
-                    "the path given to the filters is the normalized source path relative to the working directory",
+                    "the path given to the filters at BOTH levels is the collected source path, normalized, relative to the working "
+                    "directory, wherever the configuration was read from (Model/Filters.v; exercised over five configuration "
+                    "locations x two inputs, theorem C20_levels_agree for the model)",
                     "no built-in rule overrides Rule::require_content (the re-entry machinery of apply_rules is not modelled)"],
 }
 
@@ -332,12 +337,12 @@ def gen_filter_cases(tier, seed):
                 continue
             form = (k + pos) % 4
             put(pos, {"apply_to_files": [a] if form in (1, 3) else a, "skip_files": [sk] if form in (2, 3) else sk})
-        for _ in range(120 if quick else 2500):
+        for _ in range(80 if quick else 2500):
             put(pos, {"apply_to_files": rng.choice(POOL), "skip_files": rng.choice(POOL)})
-        for _ in range(150 if quick else 1500):
+        for _ in range(100 if quick else 1500):
             put(pos, {"apply_to_files": shapes_random(rng), "skip_files": shapes_random(rng)})
     # several positions at once
-    n_multi = 500 if quick else 3000
+    n_multi = 350 if quick else 3000
     for _ in range(n_multi):
         def maybe():
             if rng.random() < 0.3:
@@ -635,6 +640,18 @@ Definition diag_case (c : N * list bool) : string :=
         bad.append((-1, "parse/filter order"))
         case_info[-1] = ("marks", json.dumps(order_bad[0])[:600])
 
+    loc_findings = []
+    loc_bad = location_stream(ctx, loc_findings)
+    reported = set()
+    for key, what, rep in loc_findings:
+        if key.rsplit(":", 1)[0] in reported:
+            continue
+        reported.add(key.rsplit(":", 1)[0])
+        if len(reported) <= 4:
+            ctx.violation(what, rep, key=key)
+    if loc_bad:
+        bad.append((-3, "location stream"))
+        case_info[-3] = ("marks", json.dumps({"config": loc_bad[0][0], "diag": loc_bad[0][1], "mismatches": len(loc_bad)}))
     for pat, f, got in glob_bad[:3]:
         ctx.violation("FilterPattern::matches disagrees with the documented glob semantics: pattern %r %s path %r"
                       % (pat, "matches" if got else "does not match", f),
@@ -663,6 +680,136 @@ Definition diag_case (c : N * list bool) : string :=
     if not proofs_ok and not ctx.violations:
         failed = [n for n, ok, _ in ctx.obligations if not ok]
         ctx.violation("proof obligation no longer checks: " + "; ".join(failed), {"obligations": failed}, found_input=False)
+
+
+# ---------------------------------------------------------------------------------------------
+# where the configuration comes from must not change which path the patterns see
+
+LOC_SOURCES = ["project/" + s for s in SOURCES] + ["project/top.lua", "project/lib/a.lua"]
+LOC_POOL = ["project/src/**", "src/**", "**/sub/a.lua", "project/**/a.lua", "src/*.lua", "project/src/*.lua", "*/src/a.lua",
+            "project/*/a.lua", "**/src/**", "src/sub/**", "project/src/sub/**", "**", "a.lua", "project/src/a.lua", "src/a.lua",
+            "project/*.lua", "*.lua", "lib/**", "project/lib/**", "**/lib/*", "project/src/x/**/a.lua", "src/x/**", "x/**",
+            "top.lua", "project/top.lua", "sub/**", "project/src/sub/*.lua"]
+LOCATIONS = [
+    ("memory", {"config_memory": True}),                                           # Options::with_configuration
+    ("root", {}),                                                                  # .darklua.json of the working directory
+    ("ancestor", {"config_name": "project/.darklua.json5", "config_at": True}),    # with_configuration_at, above the sources
+    ("ancestor-src", {"config_name": "project/src/.darklua.json", "config_at": True}),
+    ("sibling", {"config_name": "conf/darklua.json", "config_at": True}),
+]
+LOC_INPUTS = ["project", "project/src"]
+
+
+def location_stream(ctx, findings):
+    """every configuration location x input: the top-level filter and a rule's filter see the collected source path
+    (relative to the working directory), so the same pattern selects the same files at both levels, and both agree with
+    the glob model / the python reading of the pattern applied to that path.  Returns (coq cases info, bad list)."""
+    global POOL, POOL_INDEX
+    saved = (POOL, POOL_INDEX)
+    POOL = list(LOC_POOL)
+    POOL_INDEX = {p: i for i, p in enumerate(POOL)}
+    try:
+        rng = random.Random(ctx.seed + 77)
+        the_tree = {p: BODY % {"name": p} for p in LOC_SOURCES}
+        the_tree["project/notes.txt"] = "not lua\n"
+        m = talk([{"match": {"patterns": POOL, "paths": LOC_SOURCES}}])[0]
+        if m.get("invalid"):
+            raise C.CheckBroken("location pool contains a pattern darklua rejects: %r" % m["invalid"])
+        spec = {(p, f): bool(glob_regex(p).fullmatch(f)) for p in POOL for f in LOC_SOURCES}
+        for pi, p in enumerate(POOL):
+            for fi, f in enumerate(LOC_SOURCES):
+                if bool(m["match"][pi][fi]) != spec[(p, f)]:
+                    findings.append(("glob:%s:%s" % (p, f), "FilterPattern::matches disagrees with the documented glob semantics: "
+                                     "pattern %r, path %r" % (p, f), {"pattern": p, "path": f, "engine": bool(m["match"][pi][fi])}))
+        # filter assignments: the same filter at the top level (T), on rule 2 (R), at both (B)
+        flts = []
+        for k, p in enumerate(POOL):
+            flts.append({"apply_to_files": [p] if k % 2 else p, "skip_files": None})
+            flts.append({"apply_to_files": None, "skip_files": p if k % 2 else [p]})
+        for _ in range(12 if ctx.tier == "quick" else 300):
+            flts.append({"apply_to_files": rng.choice(POOL), "skip_files": rng.sample(POOL, rng.choice([1, 2]))})
+        requests = [{"tree": the_tree}]
+        index = []
+        for k, flt in enumerate(flts):
+            for level in ("TRB" if (ctx.tier != "quick" or k % 3 == 0) else "TR"):
+                top = flt if level in "TB" else EMPTY
+                rules = [EMPTY, flt if level in "RB" else EMPTY, EMPTY]
+                text = config_text("marks", top, rules)
+                for loc, how in LOCATIONS:
+                    for inp in LOC_INPUTS:
+                        requests.append(dict({"id": len(requests), "config": text, "input": inp, "output": "out"}, **how))
+                        index.append((flt, level, loc, inp, top, rules, text))
+        answers = talk(requests)[1:]
+        coq_cases, info = [], {}
+        selected_by = {}           # (flt id, loc, inp, level) -> frozenset of files the filter let through
+        nontrivial = 0
+        for (flt, level, loc, inp, top, rules, text), ans in zip(index, answers):
+            files = ans["files"]
+            if not ans["ok"]:
+                findings.append(("location:%s:%s:run" % (loc, inp), "run failed: %r" % ans["errors"][:2],
+                                 {"config": text, "location": loc, "input": inp}))
+                continue
+            obs, through = [], set()
+            for fi, src in enumerate(LOC_SOURCES):
+                if not src.startswith(inp + "/"):
+                    # not collected: untouched, nothing written for it
+                    if files.get(src) != the_tree[src]:
+                        findings.append(("location:%s:%s:uncollected" % (loc, inp), "a file outside the input changed: " + src,
+                                         {"config": text, "location": loc, "input": inp}))
+                    continue
+                got = files.get("out/" + src[len(inp) + 1:])
+                if got is None:
+                    what = None
+                else:
+                    what, rest = [], got
+                    while rest.startswith("--r") and rest[3:4].isdigit() and rest[4:5] == "\n":
+                        what.append(int(rest[3]))
+                        rest = rest[5:]
+                    if rest != the_tree[src]:
+                        what = "other"
+                if not spec_selected(top, src, spec):
+                    expect = None
+                else:
+                    expect = [i + 1 for i in range(3) if spec_selected(rules[i], src, spec)][::-1]
+                if what != expect:
+                    findings.append(("location:%s:%s:%s:%s" % (loc, inp, level, src),
+                                     "with the configuration %s and input %s, the %s filter does not select by the collected source "
+                                     "path: expected %r, observed %r" % (loc, inp, {"T": "top-level", "R": "rule", "B": "top-level+rule"}[level],
+                                                                         expect, what),
+                                     dict({"config": text, "input": inp, "output": "out", "file": src, "location": loc,
+                                           "tree": "vlib/c20.py LOC_SOURCES"}, **dict(LOCATIONS)[loc])))
+                if level == "T" and what is not None and what != "other":
+                    through.add(src)
+                if level == "R" and isinstance(what, list) and 2 in what:
+                    through.add(src)
+                obs.append((fi, what if what != "other" else [99]))
+            selected_by[(id(flt), loc, inp, level)] = frozenset(through)
+            if len({str(o) for _, o in obs}) > 1:
+                nontrivial += 1
+            cid = len(coq_cases)
+            coq_cases.append((cid, "(%s, [%s], %s)" % (coq_filter(top), ";".join(coq_filter(f) for f in rules), coq_obs(obs))))
+            info[cid] = (loc, inp, text)
+        # the same filter selects the same files at both levels, wherever the configuration is (no glob reading involved)
+        levels_bad = 0
+        for flt in flts:
+            for loc, _ in LOCATIONS:
+                for inp in LOC_INPUTS:
+                    t, r = selected_by.get((id(flt), loc, inp, "T")), selected_by.get((id(flt), loc, inp, "R"))
+                    if t is not None and r is not None and t != r:
+                        levels_bad += 1
+                        findings.append(("location:%s:%s:levels" % (loc, inp),
+                                         "the same filter selects different files at the top level and on a rule: %r vs %r"
+                                         % (sorted(t ^ r), flt),
+                                         {"filter": flt, "location": loc, "input": inp, "top_level": sorted(t), "rule": sorted(r)}))
+        bad = C.run_coq_cases(ctx.prop, preamble(LOC_SOURCES), coq_cases, chunk=150 if ctx.tier == "quick" else 600, tag="location")
+        ctx.stream("configuration location x input: top-level and rule filters see the collected source path (Coq glob+trace model "
+                   "and python reading vs Rust; same files at both levels)", len(coq_cases) * len(LOC_SOURCES), nontrivial,
+                   [{"location": info[k][0], "input": info[k][1], "config": info[k][2]} for k in list(info)[7:9]],
+                   mismatches=len(bad) + levels_bad + sum(1 for k, _, _ in findings if k.startswith("location:")),
+                   runs=len(coq_cases), locations=[l for l, _ in LOCATIONS], inputs=LOC_INPUTS, patterns=len(POOL))
+        return [(info[cid][2], "location=%s input=%s files=%s" % (info[cid][0], info[cid][1], diag)) for cid, diag in bad]
+    finally:
+        POOL, POOL_INDEX = saved
 
 
 def replay(ctx, path):
